@@ -75,7 +75,8 @@ Fixpoint prefixes (acc p : list bytes) : list (list bytes) :=
 Definition expand (o : Engine.op) : list Engine.op :=
   map Touch (prefixes [] (op_path o)) ++ [o].
 
-(* the statement proofs/SpecPathFacts.v is about *)
+(* the statement proofs/SpecPathFacts.v is about (proved there for wf := the root is a bucket and every bucket's entries are
+   strictly ascending, recursively; false without "the root is a bucket": Examples.root_must_be_a_bucket) *)
 Definition path_machine_stmt (wf : snode -> Prop) : Prop :=
   forall c ops, wf c ->
     strip (t_root (p_tx (fold_left path_step ops (pinit c)))) = sem_tx (flat_map expand ops) (strip c).
